@@ -38,6 +38,9 @@ if _EXT not in _sys.path:
 TYPES = ["optimizer", "sampler", "realization_filter", "function_estimator", "plan_handler", "plan_step"]
 
 
+CONSULTED: list[str] = []  # tags of the fake plug-ins whose is_supported() was called (in order)
+
+
 class Fake(Plugin):
     def __init__(self, tag: str, methods: set[str], *, discoverable: bool = True, exact: set[str] | None = None) -> None:  # noqa: D107
         self.tag = tag
@@ -46,6 +49,7 @@ class Fake(Plugin):
         self.exact = exact or set()  # method names this plug-in matches case-sensitively (how it matches is the plug-in's business)
 
     def is_supported(self, method: str) -> bool:
+        CONSULTED.append(self.tag)
         return method.lower() in self.methods or method in self.exact
 
     @property
@@ -86,7 +90,9 @@ def lookups(ptype: str) -> list[str]:
             "ext-alpha", "myext/ext-alpha", "MyExt/ext-alpha", "MYEXT/EXT-ALPHA", "myext/alpha",
             # a request for a plug-in that does not exist (or does not support the method) is not a bare request for something else:
             # the part before the slash happens to be a method name of a discoverable plug-in
-            "alpha/nope", "beta/gamma", "beta/beta", "beta/alpha", f"{real}/anything", "gamma/", "default/alpha",
+            "alpha/nope", "beta/gamma", "beta/beta", "beta/alpha",
+            # 'default' is a method name like any other: the named plug-in decides whether it supports it
+            "p1/default", "P2/Default", "p3/default", "myext/default", "zz/default", f"{real}/anything", "gamma/", "default/alpha",
             # non-ASCII names: case-insensitive means str.lower() on both sides (two different keys: 'größe' and 'grösse')
             "größe/beta", "GRößE/beta", "Größe/gamma", "grösse/alpha", "GRÖSSE/beta", "grosse/beta", f"external/scipy/{real}" if ptype == "optimizer" else "p3/Sub/Alpha"]
 
@@ -128,6 +134,7 @@ def observe(case: Any, ptype: str, managers: list[PluginManager], models: list[M
               f"step {step}, manager {m_i}: plugins() = {[n for n, _ in got_order]}, expected {[n for n, _ in exp_order]}", case)
         for method in lookups(ptype):
             exp = model.get(method)
+            CONSULTED.clear()
             try:
                 got = mgr.get_plugin(ptype, method)  # type: ignore[arg-type]
             except ConfigError:
@@ -136,6 +143,12 @@ def observe(case: Any, ptype: str, managers: list[PluginManager], models: list[M
                 check(False, "wrong-exception",
                       f"step {step}, manager {m_i}: get_plugin({method!r}) raised {type(exc).__name__}({exc}) "
                       "where an unsupported request must raise ConfigError", case)
+            if "/" in method:  # 'plugin/method' consults only the named plug-in (nobody, if no plug-in has that name)
+                named = [p for n, p in model.entries if n == method.split("/", 1)[0].lower()]
+                allowed = {p.tag for p in named if isinstance(p, Fake)}
+                check(set(CONSULTED) <= allowed, "others-consulted",
+                      f"step {step}, manager {m_i}: get_plugin({method!r}) asked the plug-ins {sorted(set(CONSULTED))} whether they support a method, "
+                      f"only {sorted(allowed) or 'nobody'} is named", case)
             try:
                 sup = mgr.is_supported(ptype, method)  # type: ignore[arg-type]
             except Exception as exc:  # noqa: BLE001
